@@ -302,42 +302,73 @@ func VerifH_C15_debit() {
 	vapi.Assert("debit.exact", rem.IsZero())
 }
 
-// VerifH_C15_attach: attach/detach take effect only when every entry is
-// signed by the right key for this host.
+// VerifH_C15_attach: attachments take effect only when every entry of the
+// batch is signed by its pool's key for this host (all or nothing).
 //
-//verif:harness prop=C15 tier=quick replay=native require=attached,rejected bounds="1..2 attachments; signature by pool key (valid) / account key / forged / for another host; detach signed by pool or account key"
+//verif:harness prop=C15 tier=quick replay=native require=attached,rejected bounds="1..2 attachments, to the same pool or to two pools, for the same or different accounts; each signature by the pool key (valid) / the account key / forged / for another host / the other entry's signature replayed"
 func VerifH_C15_attach() {
 	w := newHostWorldPlain()
-	acctKey, poolKey := keyFromByte(3), keyFromByte(4)
-	acct, pool := proto4.Account(acctKey.PublicKey()), proto4.Account(poolKey.PublicKey())
-	w.contractor.VerifSetPool(pool, types.NewCurrency64(5))
 	host := w.hostKey.PublicKey()
-	att := proto4.PoolAttachment{Account: acct, Pool: pool, ValidUntil: time.Now().Add(time.Minute)}
-	valid := true
-	switch vapi.Int("sig", 0, 3) {
-	case 0:
-		att.Signature = poolKey.SignHash(att.SigHash(host))
-	case 1: // the account holder signs for a pool it does not own
-		att.Signature = acctKey.SignHash(att.SigHash(host))
-		valid = false
-	case 2:
-		att.Signature = types.Signature(vapi.ForgedSig("attach"))
-		valid = false
-	case 3: // valid signature, but bound to another host
-		att.Signature = poolKey.SignHash(att.SigHash(keyFromByte(8).PublicKey()))
-		valid = false
+	n := vapi.Int("entries", 1, 2)
+	samePool := n == 2 && vapi.Bool("same-pool")
+	sameAcct := n == 2 && vapi.Bool("same-account")
+	var atts []proto4.PoolAttachment
+	allValid := true
+	for i := 0; i < n; i++ {
+		ai, pi := i, i
+		if samePool {
+			pi = 0
+		}
+		if sameAcct {
+			ai = 0
+		}
+		acctKey, poolKey := keyFromByte(byte(30+ai)), keyFromByte(byte(40+pi))
+		acct, pool := proto4.Account(acctKey.PublicKey()), proto4.Account(poolKey.PublicKey())
+		w.contractor.VerifSetPool(pool, types.NewCurrency64(5))
+		att := proto4.PoolAttachment{Account: acct, Pool: pool, ValidUntil: time.Now().Add(time.Minute)}
+		switch vapi.Int("sig", 0, 4) {
+		case 0:
+			att.Signature = poolKey.SignHash(att.SigHash(host))
+		case 1: // the account holder signs for a pool it does not own
+			att.Signature = acctKey.SignHash(att.SigHash(host))
+			allValid = false
+		case 2:
+			att.Signature = types.Signature(vapi.ForgedSig("attach"))
+			allValid = false
+		case 3: // valid signature, but bound to another host
+			att.Signature = poolKey.SignHash(att.SigHash(keyFromByte(8).PublicKey()))
+			allValid = false
+		case 4: // the first entry's signature reused for this one
+			if i == 0 {
+				vapi.Assume(false)
+			}
+			att.Signature = atts[0].Signature
+			if att.SigHash(host) != atts[0].SigHash(host) {
+				allValid = false
+			}
+		}
+		atts = append(atts, att)
 	}
-	req := proto4.RPCAttachPoolsRequest{Attachments: []proto4.PoolAttachment{att}}
+	req := proto4.RPCAttachPoolsRequest{Attachments: atts}
 	conn := &scriptConn{}
 	conn.in.Write(encReq(proto4.RPCAttachPoolsID, &req))
 	err := w.server.VerifHandle("attach", conn)
-	list := w.contractor.VerifAttached(acct)
 	if err != nil {
 		vapi.Reach("rejected")
-		vapi.Assert("attach.fail-changes-nothing", len(list) == 0)
+		for _, a := range atts {
+			vapi.Assert("attach.fail-changes-nothing", len(w.contractor.VerifAttached(a.Account)) == 0)
+		}
 		return
 	}
 	vapi.Reach("attached")
-	vapi.Assert("attach.gate", valid)
-	vapi.Assert("attach.effect", len(list) == 1 && list[0] == pool)
+	vapi.Assert("attach.gate", allValid)
+	for _, a := range atts {
+		found := false
+		for _, p := range w.contractor.VerifAttached(a.Account) {
+			if p == a.Pool {
+				found = true
+			}
+		}
+		vapi.Assert("attach.effect", found)
+	}
 }
